@@ -89,7 +89,10 @@ func init() {
 			i := strings.Index(src, "if !r.hasCommittedEntryAtCurrentTerm() {")
 			j := strings.Index(src, "r.readIndex.addRequest(r.log.committed, ctx, m.From)")
 			k := strings.Index(src, "r.reportDroppedReadIndex(m) return nil }")
-			return defBool("c01_leader_readindex_guard", i >= 0 && k > i && j > k)
+			// the unconfirmed shortcut is only taken by a single-voter shard
+			q := strings.Index(src, "} else if !r.isSingleNodeQuorum() {")
+			e := strings.Index(src, "} else { r.addReadyToRead(r.log.committed, ctx)")
+			return defBool("c01_leader_readindex_guard", q >= 0 && i > q && k > i && j > k && e > j)
 		}},
 		// node.ApplyUpdate is the only caller of pendingProposal.applied and it
 		// notifies reads with the applied entry index
